@@ -81,13 +81,26 @@ theorem lookupJoin_sql {db : Db} (hdb : DbOK db) {sch : Sched} (hs : ValidSched 
   rw [execution_is_relational hdb hs _ [] out hok h row, planOf_sound hdb _ 0 _ [] hp rfl]
   rfl
 
-/-- the full-strength statement of C02 for the modelled fragment -/
+/-- `Schema.NoRetractions` is sound: a plan that carries the flag produces no retraction under any scheduler —
+    the csv/json printers rely on it when they write such a plan's records as they arrive -/
+theorem noRetractions_sound {db : Db} {sch : Sched} (hs : ValidSched sch) (p : Plan) (ctx : VRow) (out : List Rec)
+    (hflag : p.noRetr = true) (h : denote sch db p ctx = some out) : ∀ r ∈ out, r.retr = false :=
+  denote_nr hs p ctx out hflag h
+
+/-- the same for every kind of sink: table printers (count tree), csv/json (records as they arrive when the plan
+    says `NoRetractions`, a count tree in front otherwise), stream_native (the changelog, consolidated by the reader) -/
+theorem join_sql_mode {db : Db} (hdb : DbOK db) {sch : Sched} (hs : ValidSched sch) (m : SinkMode) (opt : Bool) (q : JQuery)
+    (hq : q.ok = true) (rows : List VRow) (h : runQueryMode m sch opt q db = some rows) : SameBag rows (joinSem q db) :=
+  runQueryMode_sound hdb hs m opt q hq rows h
+
+/-- the full-strength statement of C02 for the modelled fragment: every output mode, every scheduler (whichever
+    input finishes first), optimizer on or off, every query and all tables -/
 def Statement : Prop :=
-  ∀ (sch : Sched), ValidSched sch → ∀ (opt : Bool) (db : Db), DbOK db → ∀ (q : JQuery), q.ok = true →
-    ∀ rows, runQuery sch opt q db = some rows → SameBag rows (joinSem q db)
+  ∀ (m : SinkMode) (sch : Sched), ValidSched sch → ∀ (opt : Bool) (db : Db), DbOK db → ∀ (q : JQuery), q.ok = true →
+    ∀ rows, runQueryMode m sch opt q db = some rows → SameBag rows (joinSem q db)
 
 theorem C02_full : Statement :=
-  fun _ hs opt _ hdb q hq rows h => join_sql hdb hs opt q hq rows h
+  fun m _ hs opt _ hdb q hq rows h => join_sql_mode hdb hs m opt q hq rows h
 
 /-- whichever input finishes first: two runs under different schedulers return the same bag -/
 theorem schedule_independent {db : Db} (hdb : DbOK db) {s1 s2 : Sched} (h1 : ValidSched s1) (h2 : ValidSched s2)
@@ -245,6 +258,24 @@ theorem eager_sink_before_fix_refuted : ¬ RawSinkStatement := by
   revert this
   decide
 
+/-- the flag rule before `fix: outer join schema must not claim NoRetractions` (both inputs retraction-free) -/
+def noRetrOld : Plan → Bool
+  | .scan _ => true
+  | .filter _ s => noRetrOld s
+  | .map _ s => noRetrOld s
+  | .streamJoin _ _ l r => noRetrOld l && noRetrOld r
+  | .outerJoin _ _ _ _ l r => noRetrOld l && noRetrOld r
+  | .lookupJoin _ _ => false
+
+/-- … was not sound: a LEFT JOIN of two files retracts a NULL-padded row when the match arrives later -/
+theorem old_noRetractions_flag_refuted :
+    ¬ (∀ (sch : Sched), ValidSched sch → ∀ (db : Db) (p : Plan) (out : List Rec), noRetrOld p = true →
+        denote sch db p [] = some out → out.all (fun r => !r.retr) = true) := by
+  intro h
+  have := h leftFirst leftFirst_valid dbEx (.outerJoin true false [.col 0] [.col 0] (.scan 0) (.scan 1)) _ rfl rfl
+  revert this
+  decide
+
 /-! ### non-vacuity -/
 example : DbOK dbEx := by
   intro t ht r hr
@@ -263,6 +294,11 @@ example : runQuery alternate true qLeft dbEx =
 example : runQuery leftFirst false qLeft dbEx =
     some [[.int 2, .int 8, .null, .null], [.null, .int 9, .null, .null], [.int 1, .int 7, .int 1, .int 10]] := rfl
 example : (runQuery alternate true qFull dbEx).map (·.length) = some 5 := rfl
+/-- the inner join carries the flag (its records are printed as they arrive), the outer joins do not -/
+example : (planQ dbEx qInner).map Plan.noRetr = some true := rfl
+example : (planQ dbEx qLeft).map Plan.noRetr = some false := rfl
+example : runQueryMode .eager rightFirst true qInner dbEx = some [[.int 1, .int 7, .int 1, .int 10]] := rfl
+example : (runQueryMode .eager leftFirst true qLeft dbEx).map (·.length) = some 3 := rfl
 example : joinSem qLeft dbEx =
     [[.int 1, .int 7, .int 1, .int 10], [.int 2, .int 8, .null, .null], [.null, .int 9, .null, .null]] := rfl
 
